@@ -255,6 +255,13 @@ def build_world() -> World:
             if isinstance(src, Val) and src.sort == STR:
                 st.assume(flds["src"].fns[0](ev.z) == src.z)
             return [(st, ev)]
+        if clsname == "TransitionDefinition":
+            t = fresh(Trans, "tdef")
+            st.assume(t.z != Trans.null)
+            src = kw.get("source")
+            if isinstance(src, Val) and src.sort == Node:
+                st.assume(w.classes["Trans"].fields["source"].fns[0](t.z) == src.z)
+            return [(st, t)]
         return None
     w.ctor_hook = ctor_hook
     w.external_mods = lambda name: []
